@@ -12,6 +12,7 @@ package main
 
 import (
 	"encoding/json"
+	"sort"
 	"fmt"
 	"os"
 	"os/exec"
@@ -43,6 +44,7 @@ var harnesses = []harness{
 	{regexp.MustCompile(`^join\.IngressPods`), "join", "d6_test.go.txt", "TestReplayD6", "scenario: create/close cycles of IngressPods, goroutine census"},
 	{regexp.MustCompile(`^types/pod\.NewMonitor\$`), "types/pod", "d8_test.go.txt", "TestReplayD8", "scenario: foreign-typed object on a typed controller's watch"},
 	{regexp.MustCompile(`^types/replicationcontroller\.PodsFilter/`), "types/replicationcontroller", "d3_test.go.txt", "TestReplayD3", "inputs: RC in another namespace; selector-less RC with template labels"},
+	{regexp.MustCompile(`^assumed-contracts-never-a-replay$`), "filter", "assumed_contracts_test.go.txt", "TestAssumedContracts", "bounded stand-in for the assumed library contracts (labels, LabelSelectorAsSelector, reflect.DeepEqual, labels.Equals, sort.Slice, strconv.Atoi, errors.Wrap, meta helpers, time.Timer) over small universes"},
 	{regexp.MustCompile(`^\(?\*?filter\.|^filter\.`), "filter", "filter_search_test.go.txt", "TestReplaySearchFilters", "bounded search: filter terms up to depth 2 over a small universe, real Accept/Equals vs executable semantics"},
 }
 
@@ -58,11 +60,11 @@ func tryReplay(e *engine, o *oblig, prop string) replayResult {
 		}
 	}
 	if h == nil {
-		return replayResult{}
+		return replayScenarios(e, o, prop)
 	}
 	src := filepath.Join("/verif/replay", h.file)
 	if _, err := os.Stat(src); err != nil {
-		return replayResult{}
+		return replayScenarios(e, o, prop)
 	}
 	replayMu.Lock()
 	if r, ok := replayCache[h.file]; ok {
@@ -74,11 +76,86 @@ func tryReplay(e *engine, o *oblig, prop string) replayResult {
 	replayMu.Lock()
 	replayCache[h.file] = r
 	replayMu.Unlock()
+	if !r.found {
+		if r2 := replayScenarios(e, o, prop); r2.found {
+			return r2
+		}
+	}
 	return r
 }
 
+// replayScenarios: the scenario tests kept with the seeded changes (each validated to pass on the
+// unchanged code) double as replays: those recorded for an obligation of the same function, then
+// those of the same property, are run on the working tree; the first that fails is attached.
+func replayScenarios(e *engine, o *oblig, prop string) replayResult {
+	metas, _ := filepath.Glob("/verif/seeded/*/meta.json")
+	sort.Strings(metas)
+	type cand struct {
+		dir, pkg, test string
+		rank int
+	}
+	var cands []cand
+	fnKey := sanitizeFile(o.fn)
+	for _, mf := range metas {
+		data, err := os.ReadFile(mf)
+		if err != nil {
+			continue
+		}
+		var m struct {
+			Property   string   `json:"property"`
+			Pkg        string   `json:"demo_package_dir"`
+			Test       string   `json:"demo_test"`
+			DetectedBy []string `json:"detected_by"`
+		}
+		if json.Unmarshal(data, &m) != nil || m.Test == "" {
+			continue
+		}
+		rank := 0
+		for _, d := range m.DetectedBy {
+			if strings.Contains(d, fnKey) {
+				rank = 2
+			}
+		}
+		if rank == 0 && m.Property == prop {
+			rank = 1
+		}
+		if rank > 0 {
+			cands = append(cands, cand{filepath.Dir(mf), m.Pkg, m.Test, rank})
+		}
+	}
+	sort.SliceStable(cands, func(i, j int) bool { return cands[i].rank > cands[j].rank })
+	if len(cands) > 5 {
+		cands = cands[:5]
+	}
+	var tried []string
+	for _, c := range cands {
+		key := "scenario:" + c.dir
+		replayMu.Lock()
+		r, ok := replayCache[key]
+		replayMu.Unlock()
+		if !ok {
+			h := &harness{pkg: c.pkg, file: "", test: c.test, what: "scenario test kept with seeded change " + filepath.Base(c.dir)}
+			r = runHarnessFile(e, h, filepath.Join(c.dir, "demo_test.go.txt"))
+			replayMu.Lock()
+			replayCache[key] = r
+			replayMu.Unlock()
+		}
+		if r.found {
+			return r
+		}
+		tried = append(tried, filepath.Base(c.dir))
+	}
+	if len(tried) == 0 {
+		return replayResult{}
+	}
+	return replayResult{text: "scenario tests run on the working tree, none failed: " + strings.Join(tried, ", ")}
+}
+
 func runHarness(e *engine, h *harness) replayResult {
-	src := filepath.Join("/verif/replay", h.file)
+	return runHarnessFile(e, h, filepath.Join("/verif/replay", h.file))
+}
+
+func runHarnessFile(e *engine, h *harness, src string) replayResult {
 	dir, _ := os.MkdirTemp("", "kvc-replay")
 	defer os.RemoveAll(dir)
 	target := filepath.Join(e.repo, h.pkg, "zz_replay_verif_test.go")
@@ -100,8 +177,8 @@ func runHarness(e *engine, h *harness) replayResult {
 			break
 		}
 	}
-	hdr := fmt.Sprintf("harness: /verif/replay/%s (%s)\ncommand: cd %s && go test -overlay <%s -> %s> -vet=off -count=1 -timeout 120s -run '^%s' ./%s   (%.1fs)\n",
-		h.file, h.what, e.repo, target, src, h.test, h.pkg, time.Since(t0).Seconds())
+	hdr := fmt.Sprintf("harness: %s (%s)\ncommand: cd %s && go test -overlay <%s -> %s> -vet=off -count=1 -timeout 120s -run '^%s' ./%s   (%.1fs)\n",
+		src, h.what, e.repo, target, src, h.test, h.pkg, time.Since(t0).Seconds())
 	r := replayResult{text: hdr + strings.Join(keep, "\n")}
 	if err != nil && strings.Contains(string(out), "--- FAIL") {
 		r.found = true
